@@ -272,8 +272,8 @@ MANIFEST = {
     },
     "level_note": ("The EVM interpreter is not modelled: gasUsed, intrinsic gas and the script of effects of a successful run "
                    "(known for the driver's hand-assembled contracts) are parameters; theorem hypotheses: 0 <= gasUsed <= gasLimit, "
-                   "the run does not touch the fee collector, balances >= 0. The EIP-3529 refund cap is tied by a generated fact "
-                   "only. Interpretation: a tx failing after ante without a response pays the whole prepayment (stated in P). "
+                   "the run does not touch the fee collector, balances >= 0. How GasUsed itself is computed (EIP-3529 cap) is outside this property (C03); the cap is extracted as an "
+                   "informational fact only. Interpretation: a tx failing after ante without a response pays the whole prepayment (stated in P). "
                    "Trusted: Coq kernel + vm_compute, the extractor, the driver (bank keeper reads, event parsing), the plugin."),
     "technique": "Coq proof (integer arithmetic + ledger sum invariants) + generated facts + differential correspondence on ABCI measurements",
 }
